@@ -23,7 +23,7 @@ def _closed_world(fns, pool, k=3):
         if kk in seen and seen[kk] != w:
             raise csrc.ExtractError("closed-world string abstraction: '%s' and '%s' share the prefix '%s'" % (w, seen[kk], kk))
         seen[kk] = w
-def _u(name, src, allfns, define, fns, pool, nev, **kw):
+def _u(name, src, allfns, define, fns, pool, nev, quick=0, **kw):
     """two variants: quick tier with a short stream (every early-error path), thorough tier with a stream long enough to accept a record"""
     res = []
     if quick:
@@ -42,15 +42,19 @@ def _u(name, src, allfns, define, fns, pool, nev, **kw):
         res.append(_u1(name + "_accept", src, allfns, define, fns, pool, len(ent) // 2, tier="quick".join(map(str, ent)), **dict(kw)))
     res.append(_u1(name, src, allfns, define, fns, pool, nev, tier="thorough" if quick else "quick", **dict(kw)))
     return res
-def _u1(name, src, allfns, define, fns, pool, nev, unwind=0, timeout=1800, elt=16, keep=(), tier="quick", covers=2, prefix=3, short=False, script=None, **kw):
+def _u1(name, src, allfns, define, fns, pool, nev, unwind=0, timeout=1800, elt=16, keep=(), tier="quick", covers=2, prefix=3, short=False, script=None, cap=4, **kw):
     _closed_world(fns, pool, prefix)
     unwind = unwind or max(max(len(x) for x in pool) + 3, prefix + 2)
-    return Unit(name="C13.parse_" + name, src=src, defines=[define, _pool(*pool), "VP_MAX_EVENTS=%d" % nev, "VP_GLIB_FIXED_CAP=4", "VP_STR_PREFIX=%d" % prefix] + (["VP_SHORT"] if short else []) + (["VP_SCRIPT=" + script] if script else []) + ["VP_T_" + f for f in fns], functions=fns, props=kw.pop("props", ["C13", "C14"]), no_dfcc=True, kind="bounded",
+    return Unit(name="C13.parse_" + name, src=src, defines=[define, _pool(*pool), "VP_MAX_EVENTS=%d" % nev, "VP_GLIB_FIXED_CAP=%d" % cap, "VP_STR_PREFIX=%d" % prefix] + (["VP_SHORT"] if short else []) + (["VP_SCRIPT=" + script] if script else []) + ["VP_T_" + f for f in fns], functions=fns, props=kw.pop("props", ["C13", "C14"]), no_dfcc=True, kind="bounded",
                 bound=(("event streams whose event types and key scalars follow the well-formed sequence of one record (%d events) with arbitrary value scalars, a parse failure possible at every point;" if script else "event streams of at most %d events of any type (a parse failure possible at every point);") % nev) +
-                      " scalar values from a pool of %d strings (every key the function compares against + sample values); lists hold at most 4 elements" % len(pool),
-                remove_bodies=[f for f in allfns if f not in fns and f not in keep], stub_srcs=["units/C13/parser_stubs.c"], extra_flags=["--nondet-static", "--unwind", str(unwind), "--unwindset", "vp_bytes.0:%d,%s.0:%d" % (elt + 1, fns[0], nev + 2)], covers=covers, min_obligations=10, timeout=timeout, tier=tier,
+                      " scalar values from a pool of %d strings (every key the function compares against + sample values); lists hold at most %d elements" % (len(pool), cap),
+                remove_bodies=[f for f in allfns if f not in fns and f not in keep], stub_srcs=["units/C13/parser_stubs.c"], extra_flags=["--nondet-static", "--unwind", str(unwind), "--unwindset", "vp_bytes.0:%d,%s.0:%d,%s.1:%d" % (elt + 1, fns[0], nev + 2, fns[0], nev + 2)], covers=covers, min_obligations=10, timeout=timeout, tier=tier,
                 stubbed_contracts=["libyaml event API (units/C13/parser_model.h)", "strtol (stubs/vp_strtol.h)", "GLib GString/GArray (stubs/vp_glib.h)"], **kw)
 _TRK = "units/C13/parser_track.c"
+_TRN = "units/C13/parser_train.c"
+_BRD = "units/C13/parser_board.c"
+_tb = [f.name for f in _t.by_file[csrc.REPO + "/src/parser/bidib_config_parser_board.c"]]
+_tn = [f.name for f in _t.by_file[csrc.REPO + "/src/parser/bidib_config_parser_train.c"]]
 UNITS = sum([
     _u("aspect", _TRK, _tr, "VP_H_ASPECT", ["bidib_config_parse_aspect"], ["id", "value", "a", "b", "0x01", "2", "zz"], 6),
     _u("dcc_aspect_port", _TRK, _tr, "VP_H_DCC_PORT", ["bidib_config_parse_dcc_aspect_port"], ["port", "value", "0", "1", "0x02", "zz"], 6, elt=2),
@@ -61,4 +65,14 @@ UNITS = sum([
     _u("segment", _TRK, _tr, "VP_H_SEGMENT", ["bidib_config_parse_single_board_segment"], ["id", "address", "length", "q", "0x01", "zz"], 8),
     _u("reverser", _TRK, _tr, "VP_H_REVERSER", ["bidib_config_parse_single_board_reverser"], ["id", "cv", "q", "7", "zz"], 6),
     _u("board_setup", _TRK, _tr, "VP_H_BOARD_SETUP", ["bidib_config_parse_single_board_setup"], ["id", "points-board", "points-dcc", "signals-board", "signals-dcc", "peripherals", "segments", "reversers", "B", "zz"], 9, prefix=9),
-], [])
+    _u("train_calibration", _TRN, _tn, "VP_H_CALIBRATION", ["bidib_config_parse_single_train_calibration"], ["5", "126", "127", "zz"], 11, elt=4, cap=10, unwind=11),
+    _u("train_function", _TRN, _tn, "VP_H_TRAIN_PERIPH", ["bidib_config_parse_single_train_peripheral"], ["id", "bit", "initial", "p", "q", "r", "1", "31", "32", "zz"], 8),
+    _u("train", _TRN, _tn, "VP_H_TRAIN", ["bidib_config_parse_single_train"], ["id", "dcc-address", "dcc-speed-steps", "calibration", "peripherals", "r", "0x1234", "28", "zz"], 14, elt=16, prefix=5),
+    _u("board", _BRD, _tb, "VP_H_BOARD", ["bidib_config_parse_single_board_features"], ["id", "unique-id", "features", "number", "value", "B", "zz"], 14, quick=6, elt=2, prefix=3, timeout=3000, props=["C13", "C14", "C19"]),
+], []) + [
+    Unit(name="C13.free_single_" + n, src="units/C13/free_board.c", defines=d + ["VP_GLIB_FIXED_CAP=2"], functions=[fn], props=["C13"], no_dfcc=True, kind="bounded",
+         bound="record with 0..1 element per list; loops unwound completely",
+         remove_bodies=[f.name for f in _t.by_file[csrc.REPO + "/src/state/bidib_state_free.c"] if f.name != fn], extra_flags=["--nondet-static", "--unwind", "4", "--unwindset", "vp_bytes.0:41"],
+         covers=2, min_obligations=10, timeout=600)
+    for n, d, fn in [("board", [], "bidib_state_free_single_board"), ("train", ["VP_H_TRAIN"], "bidib_state_free_single_train")]
+]
